@@ -428,8 +428,25 @@ def run_family(name, repo, seed=0):
     fn = globals()[name]
     fam = fn(seed)
     key = (name, repo, seed)
+    # developer aid (tools/run_seeded.py): several property checks of ONE scratch tree share the
+    # result of a family through a cache directory; never set for the registered commands
+    cdir = os.environ.get("VERIF_FAMILY_CACHE")
+    cfile = os.path.join(cdir, "%s.%d.json" % (name, seed)) if cdir else None
     if key in _SEARCH_MEMO:
         cex, oracle = _SEARCH_MEMO[key]
+    elif cfile:
+        import fcntl
+        os.makedirs(cdir, exist_ok=True)
+        with open(cfile + ".lock", "w") as lk:
+            fcntl.flock(lk, fcntl.LOCK_EX)
+            if os.path.exists(cfile):
+                with open(cfile) as f:
+                    cex, oracle = json.load(f)
+            else:
+                cex, oracle = _search_family(fam, repo)
+                with open(cfile, "w") as f:
+                    json.dump([cex, oracle], f)
+        _SEARCH_MEMO[key] = (cex, oracle)
     else:
         cex, oracle = _search_family(fam, repo)
         _SEARCH_MEMO[key] = (cex, oracle)
